@@ -91,6 +91,11 @@ func Generate(ctx context.Context, wd string, env []string, patterns []string, o
 	generated := make([]GenerateResult, len(pkgs))
 	for i, pkg := range pkgs {
 		generated[i].PkgPath = pkg.PkgPath
+		if len(pkg.GoFiles) == 0 {
+			// Nothing to analyze, e.g. a directory that only holds _test.go
+			// files: no injectors, no output and no error.
+			continue
+		}
 		outDir, err := detectOutputDir(pkg.GoFiles)
 		if err != nil {
 			generated[i].Errs = append(generated[i].Errs, err)
